@@ -3,7 +3,11 @@
 //! different vector, flush+load} over a fixed 7-vector set, every metric, both
 //! neighbour-selection strategies, reconnect_on_delete on/off, dims {2, 8}.
 //! After every history: queries = every stored vector + 3 out-of-distribution
-//! ones, k = 1..n+1, compared with the brute-force VecModel.
+//! ones, k = 1..n+1 and 10, compared with the brute-force VecModel. Stage
+//! `beam` varies the search parameters (ef_search 1, 2, 3, 10, 11, 50 x
+//! ef_construction 1, 3): when layer 0 is strongly connected and the beam
+//! max(ef_search, k) covers all n nodes the answer must be the exact top-k;
+//! with a narrower beam only soundness, order and the min(k, R) count hold.
 
 use serde_json::json;
 use std::collections::BTreeSet;
@@ -76,6 +80,7 @@ struct Agg {
     short: u64,
     nonempty: u64,
     full_bound: u64,
+    exact_required: u64,
     cap_reached: u64,
     states: BTreeSet<u64>,
     nontrivial: BTreeSet<u64>,
@@ -97,6 +102,7 @@ fn run_item(item: &Item, deadline: std::time::Instant) -> Agg {
         agg.short += out.tally.short_results;
         agg.nonempty += out.tally.nonempty_results;
         agg.full_bound += out.tally.full_bound;
+        agg.exact_required += out.tally.exact_required;
         agg.cap_reached += out.cap_reached as u64;
         match &out.result {
             Ok(()) => {
@@ -166,17 +172,36 @@ fn main() {
     let ec = [anda_db_hnsw::DistanceMetric::Euclidean, anda_db_hnsw::DistanceMetric::Cosine];
     let cap_quick = vhnsw::sut::layer_cap_cfgs(&[2], &ec, &[(1, None), (2, None)]);
     let cap_thorough = vhnsw::sut::layer_cap_cfgs(&[2, 8], &vhnsw::sut::METRICS, &[(1, None), (2, None), (3, None), (3, Some(3.0)), (4, Some(3.0))]);
+    //  beam - the search-parameter axis: ef_search in {1, 2, k, k+1 for k in {1,2,10}, default 50} = {1,2,3,10,11,50} x
+    //         ef_construction in {1, 3} on the tight graph (M=2); k = 1..n+1 and 10 come from the oracle's sweep
+    let beam_of = |base: &[Cfg], efs: &[usize], efc: &[usize]| -> Vec<Cfg> {
+        let mut out = Vec::new();
+        for c in base {
+            for &ef_search in efs {
+                for &ef_construction in efc {
+                    if (ef_search, ef_construction) != (c.ef_search, c.ef_construction) {
+                        out.push(Cfg { ef_search, ef_construction, ..c.clone() });
+                    }
+                }
+            }
+        }
+        out
+    };
+    let beam_quick = beam_of(&all_cfgs(&[2], false), &[1, 2, 3, 10, 11, 50], &[1, 3]);
+    let beam_thorough = beam_of(&all_cfgs(&[2, 8], false), &[1, 2, 3, 10, 11, 50], &[1, 2, 3, 8]);
     type Stage = (&'static str, Vec<Cfg>, Vec<u64>, Vec<(usize, Vec<&'static str>)>);
     let stages: Vec<Stage> = run.tier.pick(
         vec![
             ("dims", dims_cfgs.clone(), vec![1], vec![(0, vec!["b7"]), (1, vec!["b7"])]),
             ("layercap", cap_quick.clone(), vec![1], vec![(0, all.clone()), (1, all.clone()), (2, all.clone()), (3, all.clone())]),
+            ("beam", beam_quick.clone(), vec![1], vec![(0, all.clone()), (1, all.clone()), (2, all.clone())]),
             ("main", tight.clone(), vec![1], vec![(0, all.clone()), (1, all.clone()), (2, all.clone()), (3, all.clone())]),
             ("main", tight.iter().filter(|c| c.dim == 2).cloned().collect(), vec![1], vec![(4, vec!["b7"])]),
         ],
         vec![
             ("dims", dims_cfgs.clone(), vec![1, 2], vec![(0, vec!["b4", "b7"]), (1, vec!["b4", "b7"]), (2, vec!["b4", "b7"])]),
             ("layercap", cap_thorough.clone(), vec![1, 2, 3], (0..=3).map(|d| (d, all.clone())).collect()),
+            ("beam", beam_thorough.clone(), vec![1, 2], (0..=3).map(|d| (d, all.clone())).collect()),
             ("roomy", roomy.clone(), vec![1], (0..=4).map(|d| (d, all.clone())).collect()),
             ("main", tight.clone(), vec![1, 2], (0..=4).map(|d| (d, all.clone())).collect()),
             ("main", tight.clone(), vec![1], vec![(5, all.clone())]),
@@ -211,6 +236,11 @@ fn main() {
                 run.add("evaluations", a.searches);
                 run.add("searches_nonempty", a.nonempty);
                 run.add("searches_required_to_return_min_k_n", a.full_bound);
+                run.add("searches_required_to_be_exact_top_k", a.exact_required);
+                if stage == "beam" {
+                    run.add("beam_stage_histories", a.histories);
+                    run.add("beam_stage_searches_required_to_be_exact_top_k", a.exact_required);
+                }
                 short_seen |= a.short > 0;
                 if stage == "layercap" {
                     run.add("layercap_histories", a.histories);
@@ -255,7 +285,7 @@ fn main() {
          metrics x 2 selection strategies x reconnect_on_delete on/off (thorough: x 2 graph regimes) x declared layer seeds, plus a stage with small max_layers (1,2; thorough also 3,4 with scale_factor 3) in which the layer cap is really reached \
          (counter layercap_histories_at_layer_cap), plus a stage over EVERY dimension 2..=64 (short histories from the full base; SIMD lane remainder paths); each history is \
          executed from scratch on the real HnswIndex and after its last operation every stored vector + 3 out-of-distribution queries are \
-         searched with k=1..n+1 and compared with the VecModel, incl. completeness: at least min(k, R) results, R = fewest live nodes reachable over layer-0 edges from any live node (read off the graph; R = n on a strongly connected layer 0, counter searches_required_to_return_min_k_n; ef_search = 2 < k in the tight regime); states = distinct (configuration, depth, live set + vectors); distinct \
+         searched with k=1..n+1 and compared with the VecModel, incl. completeness: at least min(k, R) results, R = fewest live nodes reachable over layer-0 edges from any live node (read off the graph; R = n on a strongly connected layer 0, counter searches_required_to_return_min_k_n; ef_search = 2 < k in the tight regime), and exactness: when R = n and the documented layer-0 beam max(ef_search, k) >= n the result is THE exact top-k (min(k, n) results whose sorted distances equal the smallest brute-force distances; counter searches_required_to_be_exact_top_k) - for a narrower beam the property promises soundness, distance order and the min(k, R) count only; k sweeps 1..n+1 and 10; stage beam varies the search parameters: ef_search in {1,2,3,10,11,50} (= 1, 2, k, k+1 for k in {1,2,10}, default) x ef_construction in {1,3} (thorough {1,2,3,8}) on the tight graph, histories of <= 2 (thorough 3) operations; states = distinct (configuration, depth, live set + vectors); distinct \
          non-trivial = states with >= 2 live vectors",
     );
     run.assume("layer assignment is exhaustive only over the declared layer seeds (verif hook), not over all random draws");
